@@ -209,6 +209,12 @@ def check_final(prop, spec_obj, dsg, made, log, directed=None):
             raise Viol(f'{prop}/inadmissible-reported-feasible',
                        f'decisions {made} have no admissible completion (every closure contains an incompatible pair) '
                        f'but the result is reported feasible; nodes {sorted(nodes)} symptoms {sym}')
+    if prop != 'C02':
+        # C06 states nothing about the closure itself (that is C02): only the incompatibility clauses apply
+        pair = spec_obj.conflict(nodes)
+        if pair:
+            raise Viol(f'{prop}/incompatible-pair-in-feasible', f'{pair} both present in a result reported feasible')
+        return {'feasible': True, 'nodes': nodes, 'wired': _readback(spec_obj, dsg), 'edges': gen_dsg.observe_edges(dsg)}
     left = [n for n in dsg.graph.nodes if isinstance(n, SelectionChoiceNode)]
     if left:
         raise Viol(f'{prop}/choice-node-left', f'feasible result still contains {[gen_dsg.label(n) for n in left]} '
@@ -280,19 +286,20 @@ def run_once(prop, trace, ids_seed, log):
                 rng = random.Random(oseed)
                 fin, made = walk(prop, spec_obj, built, rng, (k.get('picks') or [[], []])[j], log, directed=assign_a)
                 o = check_final(prop, spec_obj, fin, made, log, directed=assign_a)
-                if o['nodes'] != set(nodes_a):
+                if prop == 'C02' and o['nodes'] != set(nodes_a):
                     raise Viol(f'{prop}/wrong-architecture', f'followed {sorted(assign_a.items())}: nodes differ')
                 o['made'] = made
                 pair.append(o)
                 stats['directed_walks'] += 1
-            if len(pair) == 2 and (pair[0]['nodes'] != pair[1]['nodes'] or pair[0]['edges'] != pair[1]['edges']):
+            if prop == 'C02' and len(pair) == 2 and (pair[0]['nodes'] != pair[1]['nodes']
+                                                       or pair[0]['edges'] != pair[1]['edges']):
                 raise Viol(f'{prop}/order-dependent-result',
                            f'orders {pair[0]["made"]} and {pair[1]["made"]} give different instances')
             obs['directed'].append(pair[0] if pair else None)
         # soundness of the reached set
         admissible = {(nodes_a, tuple(sorted(set(map(tuple, spec_obj.wiring(a)))))) for nodes_a, a in archs}
         for r in reached:
-            if r not in admissible:
+            if prop == 'C02' and r not in admissible:
                 raise Viol(f'{prop}/reached-inadmissible', f'random walk reached {sorted(r[0])} / {r[1]} which R-sem rejects')
         if archs and not built.dsg.feasible and not trace['walks']:
             raise Viol(f'{prop}/infeasible-but-admissible', 'initial graph infeasible but R-sem admits architectures')
@@ -319,6 +326,22 @@ def _has_cycle(spec):
         return True
     except nx.NetworkXNoCycle:
         return False
+
+
+def _has_interlocking_cycles(spec):
+    """A strongly connected component (derivation + origin->option edges) with more than one independent cycle."""
+    import networkx as nx
+    g = nx.DiGraph()
+    g.add_edges_from(map(tuple, spec['derive']))
+    for cid, origin, opts in spec['sel']:
+        for o in opts:
+            g.add_edge(origin, o)
+    for comp in nx.strongly_connected_components(g):
+        if len(comp) > 1:
+            sub = g.subgraph(comp)
+            if sub.number_of_edges() - len(comp) + 1 >= 2:
+                return True
+    return False
 
 
 def _has_shared_option(spec):
@@ -394,7 +417,7 @@ def generate(prop, seed, tier, n_incompat_max):
     s = Streams(seed)
     rng = s('gen')
     spec = gen_dsg.gen_selection_spec(rng, n_incompat_max=n_incompat_max,
-                                      p_island=0.03, p_cycle=rng.choice([0.0, 0.15, 0.4]),
+                                      p_island=0.03, p_cycle=rng.choice([0.0, 0.15, 0.4, 0.9]),
                                       p_shared=rng.choice([0.0, 0.3, 0.7]))
     orng = s('ops')
     n_walks = 3 if tier == 'quick' else 5
@@ -478,6 +501,8 @@ def signature(trace, result):
     feats = []
     if _has_cycle(spec):
         feats.append('cycle')
+    if _has_interlocking_cycles(spec):
+        feats.append('interlocking-cycles')
     if spec['incompat']:
         feats.append('incompat')
     if gen_dsg.has_unreachable(spec):
